@@ -1,4 +1,5 @@
 import E3nnVerif.Model.S2Grid
+import E3nnVerif.Generated.Legendre
 /-
 Line protocol driver for C11 (Float instance of the `_s2grid.py` / `_so3grid.py` model).
   input line :  <op> <tokens…>      ints in decimal (`N` = python None), every float64 as the decimal value of
@@ -214,6 +215,14 @@ def handle (toks : List String) : String :=
     match N.toNat? with
     | some N => okF (flat2 N 4 fun j i => legendre1 N j i)
     | none => "error:bad-op"
+  | ["legendre", N, lmax] =>
+    -- the regenerated Legendre table (Generated/Legendre.lean) on the beta grid, flattened [b, i], i < (lmax+1)²
+    match N.toNat?, lmax.toNat? with
+    | some N, some lmax =>
+      if lmax ≤ E3nnVerif.Generated.legLmax then
+        okF (flat2 N ((lmax + 1) ^ 2) fun j i => E3nnVerif.Legendre.legendreGrid E3nnVerif.Generated.legTable N j i)
+      else "error:bad-op"
+    | _, _ => "error:bad-op"
   | ["shabuf", l, M] =>
     match l.toNat?, M.toNat? with
     | some l, some M => okF (flat2 M (2 * l + 1) fun a m => sha l M a m)
